@@ -594,7 +594,7 @@ def armInclude (C : Cfg)
           else
             match lit with
             | some u =>
-              (match recUsage inp s path u wB.defines ignoreInclude stripComments (resolveDepth + 1) includeDepth with
+              (match recUsage inp s path u wB.defines ignoreInclude true (resolveDepth + 1) includeDepth with  -- comments are never part of the file name (repair D20)
                | .error e => .error e
                | .ok (some (p, _, _)) => .ok (trimMatches 34 (trim p), [u])
                | .ok none => .ok ([], [u]))
